@@ -7,6 +7,7 @@ import live as L
 import loop_traces as LT
 from props import _loop
 
+ESCALATE = True     # cheap thorough tier: run it whenever an anchor file differs from the pinned fingerprint
 RULE = ("live runs of all ten optimizer classes over random configurations (elitism, minimization, genotype_to_phenotype, "
         "init_population, objective family incl. plateau/constant/negative/2^40-scaled, stopping criteria); at every "
         "on_generation callback and at the end the record is compared with the maximum over every individual the "
